@@ -1,10 +1,10 @@
 //! VerifVM: a real, complete MMTk binding used only by the verification harness.
 //!
 //! Object layout (little-endian, 8-byte aligned), `ref = start + REF_OFF` (`REF_OFF` = 8 by default,
-//! 0 with cfg `unified_ref`):
+//! 0 with feature `unified_ref`):
 //! ```text
 //!   start+0          forwarding-pointer word (LOCAL_FORWARDING_POINTER_SPEC)       [only if REF_OFF = 8]
-//!   ref+0            header word reserved for in-header metadata bits (zero unless cfg hdr_specs;
+//!   ref+0            header word reserved for in-header metadata bits (zero unless feature hdr_specs;
 //!                    with unified_ref this word doubles as the forwarding-pointer word)
 //!   ref+8            id:u32  nfields:u16  flags:u16
 //!   ref+16           size:u32 (total bytes from start)  payloadhash:u32
@@ -52,9 +52,9 @@ impl VMBinding for VerifVM {
 // ---------------------------------------------------------------------------------------------
 
 /// object reference = object start + OBJECT_REF_OFFSET.
-#[cfg(not(unified_ref))]
+#[cfg(not(feature = "unified_ref"))]
 pub const OBJECT_REF_OFFSET: usize = 8;
-#[cfg(unified_ref)]
+#[cfg(feature = "unified_ref")]
 pub const OBJECT_REF_OFFSET: usize = 0;
 
 pub const OFF_ID: usize = 8;
@@ -189,56 +189,55 @@ pub fn to_ref(r: usize) -> ObjectReference {
 
 pub struct VObjectModel;
 
-#[cfg(not(hdr_specs))]
+#[cfg(not(feature = "hdr_specs"))]
 impl VObjectModel {
     const LOG: VMGlobalLogBitSpec = VMGlobalLogBitSpec::side_first();
     const FWD_BITS: VMLocalForwardingBitsSpec = VMLocalForwardingBitsSpec::side_first();
     const MARK: VMLocalMarkBitSpec = VMLocalMarkBitSpec::side_after(Self::FWD_BITS.as_spec());
-    #[cfg(has_pinning)]
+    #[cfg(feature = "has_pinning")]
     const PIN: VMLocalPinningBitSpec = VMLocalPinningBitSpec::side_after(Self::MARK.as_spec());
-    #[cfg(has_pinning)]
+    #[cfg(feature = "has_pinning")]
     const LOS: VMLocalLOSMarkNurserySpec = VMLocalLOSMarkNurserySpec::side_after(Self::PIN.as_spec());
-    #[cfg(not(has_pinning))]
+    #[cfg(not(feature = "has_pinning"))]
     const LOS: VMLocalLOSMarkNurserySpec = VMLocalLOSMarkNurserySpec::side_after(Self::MARK.as_spec());
 }
 
-/// cfg `hdr_specs`: forwarding bits (bits 0-1), mark bit (bit 2) and log bit (bit 3) live in the
+/// feature `hdr_specs`: forwarding bits (bits 0-1), mark bit (bit 2) and log bit (bit 3) live in the
 /// header word at `ref+0`; LOS mark/nursery and pinning bits stay on the side.
 /// With `unified_ref` that word is also the forwarding pointer (whose low 3 bits are free), so the
 /// log bit stays on the side in that combination.
-#[cfg(hdr_specs)]
+#[cfg(feature = "hdr_specs")]
 impl VObjectModel {
-    #[cfg(not(unified_ref))]
+    #[cfg(not(feature = "unified_ref"))]
     const LOG: VMGlobalLogBitSpec = VMGlobalLogBitSpec::in_header(3);
-    #[cfg(unified_ref)]
+    #[cfg(feature = "unified_ref")]
     const LOG: VMGlobalLogBitSpec = VMGlobalLogBitSpec::side_first();
     const FWD_BITS: VMLocalForwardingBitsSpec = VMLocalForwardingBitsSpec::in_header(0);
     const MARK: VMLocalMarkBitSpec = VMLocalMarkBitSpec::in_header(2);
-    #[cfg(has_pinning)]
+    #[cfg(feature = "has_pinning")]
     const PIN: VMLocalPinningBitSpec = VMLocalPinningBitSpec::side_first();
-    #[cfg(has_pinning)]
+    #[cfg(feature = "has_pinning")]
     const LOS: VMLocalLOSMarkNurserySpec = VMLocalLOSMarkNurserySpec::side_after(Self::PIN.as_spec());
-    #[cfg(not(has_pinning))]
+    #[cfg(not(feature = "has_pinning"))]
     const LOS: VMLocalLOSMarkNurserySpec = VMLocalLOSMarkNurserySpec::side_first();
 }
 
 impl ObjectModel<VerifVM> for VObjectModel {
     const GLOBAL_LOG_BIT_SPEC: VMGlobalLogBitSpec = Self::LOG;
-    #[cfg(not(unified_ref))]
+    #[cfg(not(feature = "unified_ref"))]
     const LOCAL_FORWARDING_POINTER_SPEC: VMLocalForwardingPointerSpec =
         VMLocalForwardingPointerSpec::in_header(-64);
-    #[cfg(unified_ref)]
+    #[cfg(feature = "unified_ref")]
     const LOCAL_FORWARDING_POINTER_SPEC: VMLocalForwardingPointerSpec =
         VMLocalForwardingPointerSpec::in_header(0);
     const LOCAL_FORWARDING_BITS_SPEC: VMLocalForwardingBitsSpec = Self::FWD_BITS;
     const LOCAL_MARK_BIT_SPEC: VMLocalMarkBitSpec = Self::MARK;
-    #[cfg(has_pinning)]
+    #[cfg(feature = "has_pinning")]
     const LOCAL_PINNING_BIT_SPEC: VMLocalPinningBitSpec = Self::PIN;
     const LOCAL_LOS_MARK_NURSERY_SPEC: VMLocalLOSMarkNurserySpec = Self::LOS;
 
     const OBJECT_REF_OFFSET_LOWER_BOUND: isize = OBJECT_REF_OFFSET as isize;
-    #[cfg(unified_ref)]
-    const UNIFIED_OBJECT_REFERENCE_ADDRESS: bool = true;
+    const UNIFIED_OBJECT_REFERENCE_ADDRESS: bool = cfg!(feature = "unified_ref");
 
     fn copy(
         from: ObjectReference,
